@@ -49,6 +49,16 @@ impl Gadget {
         let f = self.f.clone();
         let p = Prog::new(move |c| {
             let ins: Vec<Witness> = inputs.iter().map(|v| c.append_witness(*v)).collect();
+            // pin rows: every input witness also sits on a (selector-free) row of
+            // its own, standing for "wherever the input came from", so that
+            // detaching a gadget wire from its input breaks a copy constraint
+            for chunk in ins.chunks(4) {
+                let mut w = [Composer::ZERO; 4];
+                for (k, x) in chunk.iter().enumerate() {
+                    w[k] = *x;
+                }
+                c.verif_raw_gate([zero(); 11], None, w);
+            }
             let lo = c.verif_witness_count();
             let outs = f(c, &ins)?;
             let hi = c.verif_witness_count();
@@ -216,11 +226,17 @@ impl Confirm {
             Compiler::compile_with_circuit(pp, b"e2", &p).map_err(|e| format!("compile: {:?}", e))?;
         Ok(Confirm { prover, verifier })
     }
+    pub fn run_prog(&self, p: &Prog) -> Real {
+        self.run_inner(p)
+    }
     pub fn run(&self, g: &Gadget, script: &[(usize, Fe)]) -> Real {
         let (p, _) = g.prog();
         let p = p.with_script(script.to_vec());
+        self.run_inner(&p)
+    }
+    fn run_inner(&self, p: &Prog) -> Real {
         let mut rng = crate::rng::ScriptedRng::base(seed(), 7);
-        let r = std::panic::catch_unwind(std::panic::AssertUnwindSafe(|| self.prover.prove(&mut rng, &p)));
+        let r = std::panic::catch_unwind(std::panic::AssertUnwindSafe(|| self.prover.prove(&mut rng, p)));
         dusk_plonk::verif::set_witness_script(&[]);
         match r {
             Err(e) => Real::Panic(crate::par::panic_msg(e)),
@@ -319,5 +335,130 @@ pub fn explore(g: &Gadget, h: &Honest, devs: &[Dev], expected_outs: Option<&[Fe]
     }
     // singletons first
     ex.unsat_samples.sort_by_key(|(k, _)| *k);
+    ex
+}
+
+// ---------------------------------------------------------------------------
+// Wire-level (copy-constraint) deviations: the instance keeps the compiled
+// rows but re-points ONE wire position to a fresh witness with another value.
+// ---------------------------------------------------------------------------
+
+#[derive(Clone, Debug)]
+pub struct Rewire {
+    pub row: usize,
+    pub wire: usize,
+    pub value: Fe,
+    pub tag: String,
+}
+
+/// Replay of the honest snapshot through raw rows, with one wire position
+/// detached from its witness. Row count, selectors and public inputs are those
+/// of the honest run; the prover only reads wire values from an instance.
+pub fn rewired_prog(h: &Honest, rw: &Rewire) -> Prog {
+    let snap = h.snap.clone();
+    let rw = rw.clone();
+    Prog::new(move |c| {
+        let init_w = c.verif_witness_count();
+        let init_rows = c.constraints();
+        // same allocation order => same witness indices as in the snapshot
+        for v in snap.witnesses.iter().skip(init_w) {
+            c.append_witness(*v);
+        }
+        let fresh = c.append_witness(rw.value);
+        let pis: std::collections::HashMap<usize, Fe> = snap.public_inputs.iter().cloned().collect();
+        for (i, g) in snap.gates.iter().enumerate().skip(init_rows) {
+            let mut w = [c.verif_witness(g.w[0]), c.verif_witness(g.w[1]), c.verif_witness(g.w[2]), c.verif_witness(g.w[3])];
+            if i == rw.row {
+                w[rw.wire] = fresh;
+            }
+            c.verif_raw_gate(g.q, pis.get(&i).copied(), w);
+        }
+        Ok(())
+    })
+}
+
+/// Candidate rewirings of the gadget's rows: for every wire position, the
+/// value that keeps the row's own identities satisfied when they are affine in
+/// that wire (so that ONLY the copy constraint breaks), plus a small menu.
+pub fn rewirings(h: &Honest, first_row: usize) -> Vec<Rewire> {
+    let mut out = vec![];
+    let n = h.snap.gates.len();
+    let size = n.next_power_of_two();
+    let val = |r: usize, k: usize| -> Fe {
+        if r < n {
+            h.snap.witnesses[h.snap.gates[r].w[k]]
+        } else {
+            zero()
+        }
+    };
+    let pis: std::collections::HashMap<usize, Fe> = h.snap.public_inputs.iter().cloned().collect();
+    for row in first_row..n {
+        let g = &h.snap.gates[row];
+        if g.q.iter().all(|q| *q == zero()) {
+            continue;
+        }
+        for wire in 0..4 {
+            let cur0 = [val(row, 0), val(row, 1), val(row, 2), val(row, 3)];
+            let next = [val((row + 1) % size, 0), val((row + 1) % size, 1), val((row + 1) % size, 2), val((row + 1) % size, 3)];
+            let pi = pis.get(&row).copied().unwrap_or(zero());
+            let resid = |v: Fe| -> Vec<Fe> {
+                let mut cur = cur0;
+                cur[wire] = v;
+                m1::row_components(&g.q, pi, &cur, &next).to_vec()
+            };
+            let honest_v = cur0[wire];
+            let mut cands: Vec<(String, Fe)> = vec![];
+            // affine solve on the arithmetic component
+            let (r0, r1, r2) = (resid(zero())[0], resid(one())[0], resid(fe(2))[0]);
+            let slope = r1 - r0;
+            if slope != zero() && r2 - r1 == slope {
+                cands.push(("solved".into(), -r0 * inv(slope)));
+            } else if slope == zero() && r0 == zero() {
+                // the row does not read this wire at all: any value keeps it satisfied
+                cands.push(("free+1".into(), honest_v + one()));
+                cands.push(("free=7".into(), fe(7)));
+            }
+            cands.push(("+1".into(), honest_v + one()));
+            cands.push(("0".into(), zero()));
+            cands.push(("1".into(), one()));
+            let mut seen: Vec<Fe> = vec![];
+            for (t, v) in cands {
+                if v == honest_v || seen.contains(&v) {
+                    continue;
+                }
+                seen.push(v);
+                out.push(Rewire { row, wire, value: v, tag: format!("rewire(r{},w{},{})", row, wire, t) });
+            }
+        }
+    }
+    out
+}
+
+pub struct RewireExploration {
+    pub n: u64,
+    /// every row identity holds, only the compiled copy constraint is broken
+    pub pure_copy_breaks: Vec<Rewire>,
+    /// satisfiable although a position was re-pointed to another value:
+    /// impossible when M1 is right (value differs from its copy class)
+    pub satisfiable: Vec<Rewire>,
+}
+
+pub fn explore_rewirings(h: &Honest, first_row: usize) -> RewireExploration {
+    let mut ex = RewireExploration { n: 0, pure_copy_breaks: vec![], satisfiable: vec![] };
+    for rw in rewirings(h, first_row) {
+        ex.n += 1;
+        let p = rewired_prog(h, &rw);
+        let Ok(snap) = p.run() else { continue };
+        match h.model.decide(&snap) {
+            m1::Verdict::Rows { gate_fails, copy_fails } => {
+                if gate_fails.is_empty() && copy_fails.is_empty() {
+                    ex.satisfiable.push(rw);
+                } else if gate_fails.is_empty() {
+                    ex.pure_copy_breaks.push(rw);
+                }
+            }
+            _ => {}
+        }
+    }
     ex
 }
